@@ -801,6 +801,8 @@ def emit_fn(em, unit, it, toks, fspec, path, src_text, rw):
         raise ExtractError('%opt split is only supported on free functions: ' + name)
     if it.get('external_body') or split:
         em.emit('#[verifier::external_body]')
+    if fspec and fspec.opts.get('loop_isolation') == 'false' and not (split or it.get('external_body')):
+        em.emit('#[verifier::loop_isolation(false)]')
     if fspec and fspec.opts.get('rlimit') and not split:
         em.emit('#[verifier::rlimit(%s)]' % fspec.opts['rlimit'])
     em.emit_tokens([T('raw', head_txt, toks[0].start)], path, src_text)
@@ -870,12 +872,14 @@ def emit_fn(em, unit, it, toks, fspec, path, src_text, rw):
             pl = []
             if fspec.opts.get('rlimit'):
                 pl.append('#[verifier::rlimit(%s)]' % fspec.opts['rlimit'])
+            if fspec.opts.get('loop_isolation') == 'false':
+                pl.append('#[verifier::loop_isolation(false)]')
             ph = re.sub(r'\bfn\s+' + re.escape(name) + r'\b', 'fn __part%d_%s' % (gi, name), head_txt, count=1)
             if rt.startswith('->'):
                 ph += ' -> (%s: %s)' % (retname, rt[2:].strip())
-            pl.append(ph)
+            pl += ph.split('\n')
             if where:
-                pl.append('    ' + where)
+                pl += ('    ' + where).split('\n')
             if fspec.requires:
                 pl.append('    requires')
                 for (label, tags, txt) in fspec.requires:
@@ -925,6 +929,8 @@ def emit_fn(em, unit, it, toks, fspec, path, src_text, rw):
                 ity, itr = it['emit_impl'], ''
             tw.append('impl %s%s {' % ((itr + ' for ') if itr else '', ity))
         tw.append('#[verifier::rlimit(1)]')
+        if fspec.opts.get('loop_isolation') == 'false':
+            tw.append('#[verifier::loop_isolation(false)]')
         twin_head = re.sub(r'\bfn\s+' + re.escape(name) + r'\b', 'fn __vac_' + name, head_txt, count=1)
         if rt.startswith('->'):
             twin_head += ' -> (%s: %s)' % (retname, rt[2:].strip())
